@@ -9,6 +9,7 @@
 #error "BITS = 224 | 256 | 384 | 512"
 #endif
 #define A_NAME		"sha2"
+typedef uint64_t	a_havoc_t;
 #define A_STW		8
 #define A_DIG		(BITS / 8)
 #define A_BE		1
@@ -17,7 +18,7 @@
 #define A_BLK_LOG2	6
 typedef uint32_t	a_word_t;
 #define A_LENB		8
-#define A_HAVOC		640	/* W[80] uint64 scratch (the 32-bit variants use the first half) */
+#define A_HAVOC		80	/* W[80] uint64 scratch (the 32-bit variants use the first half) */
 #include "v_ref_sha256.h"
 #define a_ref_compress	v_ref_sha256_compress
 #if BITS == 224
@@ -30,7 +31,7 @@ typedef uint32_t	a_word_t;
 #define A_BLK_LOG2	7
 typedef uint64_t	a_word_t;
 #define A_LENB		16
-#define A_HAVOC		640
+#define A_HAVOC		80
 #include "v_ref_sha512.h"
 #define a_ref_compress	v_ref_sha512_compress
 #if BITS == 384
@@ -71,7 +72,8 @@ static void v_sha2_transform_stub(struct sha2_ctx_s *ctx, const uint8_t *blocks,
 	for (unsigned guard = 0; blocks < blocks_max && guard < V_MAXCALLS; blocks += A_BLK, guard++) {
 		unsigned k = v_abs_step((a_word_t *)ctx->hash, blocks);
 		if (k < V_MAXCALLS)
-			memcpy(ctx->W, v_havoc[k], sizeof(ctx->W));
+			for (size_t i = 0; i < A_HAVOC; i++)
+				ctx->W[i] = v_havoc[k][i];
 	}
 	V_ASSERT(!(blocks < blocks_max), "transform asked for more blocks than any padded message of this shape has");
 }
